@@ -379,6 +379,9 @@ class NormTypeAlias(BaseNormType):
 
     @property
     def source(self) -> TypeHint:
+        if self._args:
+            # a parametrized alias is not the bare one, ``Box[int]`` and ``Box[str]`` are different types
+            return self._type_alias[tuple(arg.source for arg in self._args)]
         return self._type_alias
 
     @property
